@@ -388,12 +388,14 @@ prop(
     "one case = one seeded run executed on every simulated host: (a) in one process the same world and operation list on the five capability levels "
     "SSE2/SSSE3/SSE4.1/AVX/AVX2 reported through hook H1, steps interleaved host by host, transcripts compared after every step; (b) the same seeded runs in separately "
     "built workers - portable (no_simd) and the five no-std compile-time-dispatch builds - whose per-run transcript digests are compared with the std build. Workloads: "
-    "cipher histories (S1), block-API histories (S2), hash histories restricted to the dispatching hashes BLAKE x4 / JH x4 (S4). "
+    "cipher histories (S1), block-API histories (S2), hash histories restricted to the dispatching hashes BLAKE x4 / JH x4 (S4), and seeded PROGRAMS OF VECTOR OPERATIONS "
+    "(S8: every operation group of the Machine trait bounds on all 10 vector types - bit ops, 8+1 rotates, add/bswap, bit-group swaps, word and lane shuffles, extract/insert, lanes, byte I/O in both orders, ==, "
+    "transpose4, to_scalars - executed on the five x86 Machine types at once and on the generic machine in the portable build). "
     "distinct_nontrivial = distinct abstract states of the underlying scenarios reached on the first host",
     [
         "a host's capability level is constant for the whole run (a real process never sees detection change)",
         "levels above what the CPU of this machine can execute are skipped (max_host_level in the legs)",
-        "vector operations no algorithm uses are not reached through this property's workload (C12/C13 are not claimed)",
+        "for vector operations only cross-backend identity is judged, not what an operation should compute (C12/C13 are not claimed)",
         "seeded search: a clean batch is evidence, not proof",
     ],
     [
@@ -401,12 +403,16 @@ prop(
         Leg("std", "checked", "chacha_block@hosts", "C14", 40000, 600000, max_ops=32),
         Leg("std", "release", "hash_stream@hosts", "C03", 40000, 600000, max_ops=30),
         Leg("std", "checked", "hash_stream@hosts", "C03", 20000, 300000, max_ops=30),
+        # programs of vector operations on every Machine type at once (SSE2..AVX2), registers compared after every step
+        Leg("std", "release", "vecops", "C03", 300000, 6000000, max_ops=40),
+        Leg("std", "checked", "vecops", "C03", 100000, 2000000, max_ops=40),
     ],
     [REAL, STUB],
     cross=[
         Cross("hash_stream", "C03", "release", 20000, 200000, ["portable", "nostd-sse2"], ALL_FIXED, max_ops=30),
         Cross("chacha_stream", "C02", "release", 20000, 200000, ["portable", "nostd-sse2"], ALL_FIXED),
         Cross("chacha_block", "C14", "release", 20000, 200000, ["portable", "nostd-sse2"], ALL_FIXED, max_ops=32),
+        Cross("vecops", "C03", "release", 100000, 2000000, ["portable"], ["portable", "nostd-sse2", "nostd-avx2"], max_ops=40),
     ],
 )
 
@@ -901,7 +907,8 @@ def run_streams(pid, streams, tier, sd, replay_dir, results, violations, known):
                      profile=("checked" if "/checked/" in argv[0] else "release"),
                      violation=dict(properties=[pid], invariant="K3", signature=sig, at_op=0,
                                     detail="%s streamed across %d bytes for real: %d of %d digests around the boundary differ from the reference, %d counter readings differ from the true amount" % (ty, boundary, out["digest_mismatches"], len(out["checks"]), out["counter_mismatches"])))
-            path = os.path.join(replay_dir, "%s-stream-%s-%d.json" % (pid, ty, boundary))
+            import re as _re
+            path = os.path.join(replay_dir, "%s-stream-%s-%d.json" % (pid, _re.sub(r"[^A-Za-z0-9_]+", "_", ty).strip("_"), boundary))
             json.dump(f, open(path, "w"))
             f["replay"] = path
             kf = open_finding_for(pid, sig)
